@@ -35,10 +35,10 @@ def mkFs (files : List (Pkgcore.C30.Name × List Line)) : Fs := fun p => files.l
 
 def prefixes (ops : List FsOp) : List (List FsOp) := (List.range (ops.length + 1)).map ops.take
 
-def go (path : Pkgcore.C30.Name) (w : World) (fs : Fs) : List Req → List Json
+def go (path : Pkgcore.C30.Name) (w : World) (fs : Fs) : List (Req × Bool) → List Json
   | [] => []
-  | r :: rs =>
-    let res := updateWorldset (fun w => [w]) path w r
+  | (r, fails) :: rs =>
+    let res := updateWorldsetF (fun w => [w]) path w r fails
     let out := Json.mkObj [
       ("keyerror", Json.bool (modify w r).isNone),
       ("mem", ofStrs res.1),
@@ -54,7 +54,10 @@ def handle : Handler := fun cmd j =>
     let path ← chars j "path"
     let lines ← (← getStrs j "lines").mapM (fun s => some s.toList)
     let stale ← getBool j "stale_tmp"
-    let reqs ← (← getArr j "reqs").mapM parseReq
+    let reqs ← (← getArr j "reqs").mapM fun x => do
+      let r ← parseReq x
+      let f := match x.getObjVal? "fail" with | .ok (.bool b) => b | _ => false
+      pure (r, f)
     let fs := mkFs ((path, lines) :: (if stale then [(tmpName path, [['x']])] else []))
     pure <| Json.mkObj [("initial", ofStrs (parse lines)), ("tmp", ofChars (tmpName path)),
                         ("steps", Json.arr (go path (parse lines) fs reqs).toArray)]
